@@ -6,9 +6,11 @@ cd /repo || exit 2
 if ! git diff --quiet; then echo "/repo working tree not clean"; exit 2; fi
 git apply "$patch" || { echo "patch does not apply"; exit 2; }
 cd /verif
+rm -rf build/evidence_backup && cp -r evidence build/evidence_backup
 for p in "$@"; do
   echo "=== $p on $(basename $(dirname $patch))"
   timeout 1800 ./vx check $p --tier ${TIER:-quick} 2>&1 | grep -E "^(VIOLATION|UNDECIDED|OK|KNOWN|  failed)" | cut -c1-300 | head -${MAXL:-5}
   echo "exit=${PIPESTATUS[0]}"
 done
+rm -rf evidence && mv build/evidence_backup evidence
 git -C /repo checkout -- . ; git -C /repo status --short | head -3
